@@ -21,22 +21,24 @@ def main():
     rep = vlib.Report("C05", tier, "model_checking")
     binary = server_common.build()
     U = "all interleavings up to Mazurkiewicz equivalence (unbounded preemptions; DPOR + sleep sets)"
-    S = "carrier schedules {single, cut inside ClientID / inside length prefix / inside payload / at a packet boundary then reconnect, two overlapping carriers, idle gaps of 30/59/61/95 s with a downstream packet written during the gap}"
+    S = "carrier schedules {single, cut inside ClientID / inside length prefix / inside payload / at a packet boundary then reconnect, two overlapping carriers, idle gaps of 30/59/61/95 s with a downstream packet written during the gap, a carrier attached and idle for 140 s, a session arriving after 100 s}"
     if tier == "quick":
         passes = [
-            {"harness": "c05", "cfg": {"sessions": "1"}, "budget_s": 40, "label": "1 session x 10 " + S + ": " + U},
-            {"harness": "c05", "cfg": {"sessions": "2", "other": "single", "light": "1"}, "budget_s": 60, "label": "2 concurrent sessions: one running each of the 10 schedules, the other a single-carrier client at the same instant (one upstream packet per carrier): " + U},
+            {"harness": "c05", "cfg": {"sessions": "1"}, "budget_s": 40, "label": "1 session x 12 " + S + ": " + U},
+            {"harness": "c05", "cfg": {"sessions": "2", "other": "single", "light": "1"}, "budget_s": 60, "label": "2 concurrent sessions: one running each of the 12 schedules, the other a single-carrier client at the same instant (one upstream packet per carrier): " + U},
+            {"harness": "c05", "cfg": {"sessions": "2", "other": "late", "light": "1"}, "budget_s": 30, "label": "2 sessions: one running each of the 12 schedules (incl. a carrier that stays attached, idle, beyond the retention time), the other arriving 100 s later with a ClientID the server has not seen: " + U},
         ]
-        total = 110
+        total = 140
     else:
         passes = [
-            {"harness": "c05", "cfg": {"sessions": "1"}, "budget_s": 100, "label": "1 session x 10 " + S + ": " + U},
+            {"harness": "c05", "cfg": {"sessions": "1"}, "budget_s": 100, "label": "1 session x 12 " + S + ": " + U},
+            {"harness": "c05", "cfg": {"sessions": "2", "other": "late"}, "budget_s": 100, "label": "2 sessions, the other arriving 100 s later (two upstream packets per carrier): " + U},
             {"harness": "c05", "cfg": {"sessions": "2", "other": "single"}, "budget_s": 200, "label": "2 concurrent sessions: one running each of the 10 schedules, the other a single-carrier client (two upstream packets per carrier): " + U},
             {"harness": "c05", "cfg": {"sessions": "3", "other": "single", "light": "1"}, "budget_s": 200, "label": "3 concurrent sessions: one running each schedule, two single-carrier clients: " + U},
             {"harness": "c05", "cfg": {"sessions": "2", "light": "1"}, "budget_s": 300, "label": "2 concurrent sessions x 10 schedules each, one upstream packet per carrier: " + U},
             {"harness": "c05", "cfg": {"sessions": "2", "set": "reduced"}, "budget_s": 400, "label": "2 concurrent sessions x 4 schedules each, two upstream packets per carrier: " + U},
         ]
-        total = 900
+        total = 1000
     summary, tot, samples, exh = sched.run_passes(rep, binary, passes, total)
     sched.sched_coverage(rep, summary, tot, samples, exh)
     # tier 2: real stack on loopback
